@@ -50,6 +50,8 @@ class Run:
         self.fixture_mode = False
         self._inst_seen = set()
         self.shortfalls = []
+        self.defer = False          # thorough tier: finish() is called once after all configurations
+        self._explanation = None
 
     # ---------------------------------------------------------------- programs
     def prog(self, mode='rel', cfg=None):
@@ -125,6 +127,9 @@ class Run:
 
     # ---------------------------------------------------------------- finishing
     def finish(self, explanation, level='other'):
+        if self.defer:
+            self._explanation = explanation
+            return None
         wall = time.time() - self.t0
         evdir = os.path.join(VERIF, 'evidence')
         os.makedirs(evdir, exist_ok=True)
